@@ -290,6 +290,18 @@ func (g *Gen) MetaProgram() *Chunk {
 		case 14:
 			// __call in tail position and as a for-in iterator is exercised through pcall'd functions
 			o := N(objs[g.R.Intn(len(objs))])
+			if g.R.Intn(3) == 0 {
+				// the object itself as the function of pcall / xpcall (callable or not)
+				if g.R.Intn(2) == 0 {
+					e = CallN("xpcall", operand(), Fn([]string{"m"}, false, Blk(CallSN("emit", Str("xh"), CallN("type", N("m"))), Return(CallN("type", N("m"))))))
+					g.cover("metaop:xpcall-object")
+				} else {
+					e = CallN("pcall", operand(), Num(7))
+					g.cover("metaop:pcall-object")
+				}
+				b.Stmts = append(b.Stmts, CallSN("emit", Str("pc"), CallN("select", Str("#"), e), &EParen{X: e}))
+				continue
+			}
 			e = Call(Fn(nil, false, Blk(Return(Call(o, Num(1), Num(2))))))
 		default:
 			// setmetatable's first argument is a table in 5.1 (other types are outside the statement)
